@@ -428,8 +428,11 @@ class World:
             rest += self.enc_b(self.K(kb))
             rest += self.enc_ls(self.enc_tok, [self.tok3(t) for t in pm.tree.elements.values()])
             rest += self.enc_ls(self.enc_tok, [self.tok3(t) for t in pm.tree.unchained])
-        rest += self.enc_ls(lambda kv: self.enc_b(self.K(kv[0].public_key.key_to_bin())) + [kv[1]],
-                            list(N.permissions.items()))
+        # permissions: NOT read from the node (their representation is internal); the model's table is compared
+        # with this harness' own reference of "chain length at the user's last advertisement to that peer"
+        # (first-opening order), and what the node really hands out is judged on its MissingResponse / Disclose
+        # packets by the oracle
+        rest += self.enc_ls(lambda kv: self.enc_b(self.K(self.keys[kv[0]])) + [kv[1]], list(self.opened.items()))
         rest += self.enc_ls(self.enc_tok, [self.tok3(t) for t in N.token_chain])
         rest += self.enc_ls(lambda kv: self.enc_b(self.hcode(kv[0])) + self.enc_b(self.V(kv[1][0]))
                             + [int(kv[1][1] - BASE)] + self.enc_b(self.K(kv[1][2])),
@@ -1049,6 +1052,32 @@ def perm_case(r):
     return {"label": "perm/%d" % n, "ops": ops}
 
 
+def grow_case(r):
+    """open the chain to P at n tokens, let the chain grow afterwards (self_advertise, advertisements to other peers,
+    an attestation coming back from another peer), then P asks for missing tokens with known <= n"""
+    P = r.choice([A, B, C])
+    Q = r.choice([q for q in (A, B, C, D) if q != P])
+    n = r.choice([1, 1, 2, 3, 5])
+    ops = [["nadv", None, 10 + i, "a%d" % i, None] for i in range(n - 1)]
+    ops.append(["nadv", P, 10 + n - 1, "a%d" % (n - 1), r.choice([None, {"x": "y"}])])
+    grow = r.choice([1, 2, 3, 8])
+    for j in range(grow):
+        how = r.choice(["self", "self", "other", "attested"])
+        h, nm = 40 + j, "g%d" % j
+        if how == "self":
+            ops.append(["nadv", None, h, nm, None])
+        elif how == "other":
+            ops.append(["nadv", Q, h, nm, None])
+        else:
+            ops += [["pknown", Q, 0, h, nm, None], ["nadv", Q, h, nm, None], ["flow", -1], ["deliver", -1]]
+        if r.random() < 0.3:
+            ops.append(["reqm", P, r.choice([0, n - 1, n])])
+    for kn in sorted(set([0, max(0, n - 1), n, r.randrange(n + 1)])):
+        ops.append(["reqm", P, kn])
+    ops.append(["reqm", Q, 0])
+    return {"label": "grow/%d+%d" % (n, grow), "ops": ops}
+
+
 def store_case(r):
     ops = [["nadv", r.choice([None, A]), 10, "a0", None]]
     p = r.choice([A, B])
@@ -1185,6 +1214,8 @@ def run(ctx):
     for _ in range(50 if ctx.quick else 300):
         cases.append(perm_case(r))
     for _ in range(40 if ctx.quick else 300):
+        cases.append(grow_case(r))
+    for _ in range(40 if ctx.quick else 300):
         cases.append(store_case(r))
     for _ in range(90 if ctx.quick else 5000):
         cases.append(random_case(r, r.choice([6, 12, 20, 30])))
@@ -1235,7 +1266,8 @@ def run(ctx):
                             "Attestations/Metadata rows, pseudonym trees, permissions, chain and consent table must agree "
                             "after every event; the Python oracle states consent / valid-store / permission on the raw "
                             "packets and rows.  Generators: reject matrix (%d kinds) x 1..3 concurrent registrations, "
-                            "permission boundaries, incoming attestations, random histories.  A history is distinct by "
+                            "permission boundaries, chain growing after it was opened to a peer, incoming attestations, random "
+                            "histories.  A history is distinct by "
                             "its script and non-trivial when a disclosure reached the signing decision (attested or "
                             "refused after the solicited check), tokens left the node, or an attestation was stored" % len(MATRIX))
     ctx.extra["distribution"] = dist
